@@ -755,16 +755,25 @@ class ERunIf(El):
         return common_b(kind, j, w.fs)
 
 
+def keep_even_hundreds(value):
+    data = value[0] if isinstance(value, tuple) else value
+    return (data // 100) % 2 == 0
+
+
 class EMapGroup(El):
     name = "MapGroup"
     a_kinds = ["group2", "group1", "group3"]
     b_kinds = COMMON_B + ["str", "iterable-without-group", "group-key-scalar-data", "hist-ctx"]
 
     def options(self, tape):
-        return {"n": 1 + tape.draw(2, "seqlen")}
+        # the mapped sequence may yield nothing at all for some groups (a filter inside)
+        return {"n": 1 + tape.draw(2, "seqlen"), "filter": tape.chance(1, 3, "sequence-yields-nothing-for-some-groups")}
 
     def build(self, o, w):
-        return lena.flow.MapGroup(*([plus_one] * o["n"]), map_scalars=False)
+        els = [plus_one] * o["n"]
+        if o.get("filter"):
+            els = [lena.flow.Filter(keep_even_hundreds)] + els
+        return lena.flow.MapGroup(*els, map_scalars=False)
 
     def make_a(self, kind, i, w):
         n = {"group1": 1, "group2": 2, "group3": 3}[kind]
